@@ -3,7 +3,7 @@ import itertools
 
 import numpy as np
 
-from vt.core import alpha, bind, pool
+from vt.core import alpha, bind, graph, pool
 from vt.checks import c06
 
 ID = "C20"
@@ -39,9 +39,11 @@ def grid(n, bounds):
   return np.array(list(itertools.product(*axes)), dtype=np.float64)
 
 
-def build(cfg, kernel, bias, **extra):
+def build(cfg, kernel, bias, dtype=None, **extra):
   tf, tfl = bind.bind()
   n, units = cfg["n"], cfg["units"]
+  if dtype is not None:
+    extra = dict(extra, dtype=dtype)
   imin = [LO if b in ("lo", "both") else ZLO if b == "zlo" else None for b in cfg["bounds"]]
   imax = [HI if b in ("hi", "both") else ZHI if b == "zhi" else None for b in cfg["bounds"]]
   kw = {}
@@ -52,9 +54,10 @@ def build(cfg, kernel, bias, **extra):
   kw.update(extra)
   layer = tfl.layers.Linear(num_input_dims=n, units=units, use_bias=cfg["use_bias"], **kw)
   layer.build((None, n) if units == 1 else (None, units, n))
-  layer.kernel.assign(np.asarray(kernel, dtype=np.float32))
+  npd = np.float64 if dtype == "float64" else np.float32
+  layer.kernel.assign(np.asarray(kernel, dtype=npd))
   if cfg["use_bias"]:
-    layer.bias.assign(np.float32(bias[0]) if units == 1 else np.asarray(bias, dtype=np.float32))
+    layer.bias.assign(npd(bias[0]) if units == 1 else np.asarray(bias, dtype=npd))
   return layer
 
 
@@ -110,6 +113,29 @@ def eval_case(cfg, ctx=None):
                   (K[:, u].tolist(), bias[u] if cfg["use_bias"] else None, X[r, u].tolist(),
                    out[r, u], ref[r, u]))
       break
+  if not msgs:
+    # call forms of the same function on the last kernel block: traced with an unknown batch size,
+    # one example at a time (batch 1), and a float64 layer (tighter tolerance: no float32 rounding)
+    Xin = (Xg if units == 1 else X).astype(np.float32)
+    gm = graph.graph_msg(layer, Xin)
+    if gm:
+      msgs.append("kernel %s: %s" % (K.tolist(), gm))
+    for r in range(0, Xin.shape[0], max(1, Xin.shape[0] // 7)):
+      o1 = np.asarray(layer(tf.constant(Xin[r:r + 1])), dtype=np.float64)
+      if o1.shape != (1, units) or not np.allclose(o1[0], out[r], rtol=1e-6, atol=1e-6):
+        msgs.append("kernel %s: batch-of-one call on row %d gives %s, the batched call %s" %
+                    (K.tolist(), r, o1.tolist(), out[r].tolist()))
+        break
+    l64 = build(cfg, K, bias, dtype="float64")
+    X64 = Xg if units == 1 else X
+    o64 = np.asarray(l64(tf.constant(X64, dtype=tf.float64)), dtype=np.float64)
+    e64 = np.abs(o64 - ref) / np.maximum(1, mag) if o64.shape == ref.shape else np.array([np.inf])
+    if not (e64.max() <= 1e-9):
+      msgs.append("float64 layer, kernel %s: output differs from the reference by %.3g (relative)" %
+                  (K.tolist(), e64.max()))
+    total += ref.size * 2 + 8
+    if ctx is not None:
+      ctx.tab("call_forms", "graph_batch1_float64")
   if ctx is not None:
     ctx.add(evaluations=total, nontrivial=total - Xg.shape[0], traces=total)
     ctx.tab("eval_configs", "n%d_u%d_bias%d" % (n, units, cfg["use_bias"]))
@@ -227,7 +253,8 @@ def run(ctx):
   ctx.rule = (
       "evaluation: dims 1-3 x units 1-3 x every per-input bound pattern {none,lo,hi,both}^n x "
       "bias on/off x ALL kernel words of {-1,0,1}^n (scaled per unit) x full grid of inputs "
-      "inside/on/outside the bounds (different rows per unit); consequences: every C06 linear "
+      "inside/on/outside the bounds (different rows per unit); per configuration also the call traced "
+      "with an unknown batch size, batch-of-one calls and a float64 layer (1e-9); consequences: every C06 linear "
       "configuration's real constraint applied to all words of {-2..3}^n, the resulting weights "
       "loaded into the real layer and checked for monotonicity (all ordered grid pairs), dominance "
       "effects and weighted-average behaviour. Non-trivial = evaluated (input, unit) with a "
